@@ -347,6 +347,7 @@ REWRITES_DOC = {
     'R13': 'item taken from the arm of a macro_rules! definition, the metavariables replaced by the arguments of one invocation that exists in the file (the text the compiler expands for that invocation); the other invocations differ only in the item type',
     'R16': '`let X: T = E.collect();` -> `let X: T = FROM_ITER(E);` (Iterator::collect is FromIterator::from_iter(self); the FromIterator impl is the one the annotated type and the item type select)',
     'R17': '`for PAT in E {` -> `for verif_xK in E { let PAT = verif_xK;` (the loop pattern is bound exactly like let)',
+    'R18': '(fallback, only when a body contains closures the proof has no contract for) `E.map(|PAT| X)` -> `match E { Some(PAT) => Some(X), None => None }`: std\'s definition of Option::map with the closure literal beta-reduced; on a non-Option receiver the text does not type-check and the unit is undecided as before',
     'R15': 'fully qualified `std::cmp::f` / `core::cmp::f` -> `cmp::f` (the path through the crate\'s own `use std::cmp;`; both name the function the model module cmp declares)',
     'R8': 'struct fields widened to pub inside the unit',
     'R1': 'doc comments / #[inline] / derives dropped',
@@ -553,6 +554,61 @@ def expand_macro(text, spec, rel_file):
     return blank + body + '\n'
 
 
+def rw_option_map(text, lo):
+    """R18: `RECV.map(|PAT| EXPR)` -> `(match RECV { Some(PAT) => Some(EXPR), None => None })` and `RECV.map_or(D, |PAT| EXPR)` ->
+    `(match RECV { Some(PAT) => EXPR, None => D })` for closure literals with an expression body"""
+    mask = code_mask(text)
+    out, pos, n = [], 0, 0
+    for m in re.finditer(r'\.map(?:_or\(\s*([^,()|]+?)\s*,|\()\s*\|([^|]*)\|\s*', text):
+        if m.start() < max(lo, pos) or not mask[m.start()]:
+            continue
+        dflt, pat = m.group(1), m.group(2)
+        # body: up to the `)` that closes the call
+        d, j = 0, m.end()
+        while j < len(text):
+            if mask[j]:
+                ch = text[j]
+                if ch in '([{':
+                    d += 1
+                elif ch in ')]}':
+                    if d == 0:
+                        break
+                    d -= 1
+            j += 1
+        if j >= len(text) or text[j] != ')':
+            continue
+        body = text[m.end():j].strip()
+        if not body or body.startswith('{') or re.search(r'\breturn\b|\?', body) or ',' in re.sub(r'\([^()]*\)', '', body):
+            continue
+        # receiver: the method-call chain that ends at `.map(`
+        i, d = m.start() - 1, 0
+        while i >= 0:
+            ch = text[i]
+            if ch in ')]':
+                d += 1
+            elif ch in '([':
+                if d == 0:
+                    break
+                d -= 1
+            elif d == 0 and not (ch.isalnum() or ch in '_.:&*'):
+                break
+            i -= 1
+        recv = text[i + 1:m.start()].strip()
+        if not recv:
+            continue
+        start = m.start() - len(text[i + 1:m.start()].lstrip())
+        out.append(text[pos:start])
+        if dflt is None:
+            out.append('(match %s { Some(%s) => Some(%s), None => None })' % (recv, pat.strip(), body))
+        else:
+            # Option::map_or(default, f): `match self { Some(t) => f(t), None => default }` (std source)
+            out.append('(match %s { Some(%s) => %s, None => %s })' % (recv, pat.strip(), body, dflt.strip()))
+        pos = j + 1
+        n += 1
+    out.append(text[pos:])
+    return ''.join(out), n
+
+
 def closure_head_at(text, pos):
     """is the `|` at pos the start of a closure head (expression position) rather than a binary `|` / `||` (after an operand)?"""
     j = pos - 1
@@ -720,6 +776,24 @@ def weave_fn(src, container, name, nth, opts, subs, mode, sig_only=False):
         # contract, Verus then knows nothing about its result, and a harmless rewrite would fail to verify (a false alarm)
         nheads = len([m for m in re.finditer(r'\|[A-Za-z0-9_,: ]*\|', b.text) if m.start() > bo and b.mask[m.start()] and closure_head_at(b.text, m.start())])
         ntup = len([m for m in re.finditer(r'\|\s*\([^|()]*\)\s*\|', b.text) if m.start() > bo and b.mask[m.start()] and closure_head_at(b.text, m.start())])
+        want_ = anchor_lock().get('%s|closure-heads' % akey)
+        if want_ is not None and nheads + ntup > want_:
+            # closures the proof was not written for.  Before giving up: R18 - `E.map(|PAT| X)` on an Option is, by std's definition,
+            # `match E { Some(PAT) => Some(X), None => None }`; for a closure literal with an expression body (no block, no `return`, no `?`)
+            # the application is beta-reduced, so no closure - and no missing closure contract - is left.  Where E is not an Option the
+            # rewritten text does not type-check and the unit is undecided, exactly as it would be without the rewrite.
+            t2, k2 = rw_option_map(text, bo)
+            if k2:
+                b2 = Body(t2)
+                n2 = len([m for m in re.finditer(r'\|[A-Za-z0-9_,: ]*\|', b2.text) if m.start() > bo and b2.mask[m.start()] and closure_head_at(b2.text, m.start())]) \
+                    + len([m for m in re.finditer(r'\|\s*\([^|()]*\)\s*\|', b2.text) if m.start() > bo and b2.mask[m.start()] and closure_head_at(b2.text, m.start())])
+                if n2 == want_:
+                    text, b = t2, b2
+                    bo = b.body_open()
+                    sig_end = bo
+                    r7_text = text
+                    rewrites['R18'] = k2
+                    nheads, ntup = n2, 0
         check_anchor('%s|closure-heads' % akey, nheads + ntup)
     spec_lines = []
     attrs = []
